@@ -162,6 +162,27 @@ fn guarded(rep: &mut Report, cx: &CaseCtx, entry: &str, class: &str, input_len: 
 	}
 }
 
+/// the same input through the shipped command line: `versatiles probe <file>` has to end with an exit status
+/// (0 or an error status) — status 101 is a panic, no status a fatal signal
+fn probe_with_binary(rep: &mut Report, cwd: &std::path::Path, file: &str, entry: &str, class: &str, witness: impl Fn() -> serde_json::Value) {
+	let Some(bin) = crate::server::binary() else { return };
+	let out = std::process::Command::new(&bin).arg("probe").arg(file).current_dir(cwd).stdin(std::process::Stdio::null()).output();
+	let Ok(out) = out else { return };
+	rep.eval();
+	rep.count("inputs_through_the_command_line", 1);
+	let code = out.status.code();
+	if code == Some(101) || code.is_none() {
+		let err = String::from_utf8_lossy(&out.stderr);
+		let line = err.lines().find(|l| l.contains("panicked at")).unwrap_or("").to_string();
+		let site = line.split("panicked at ").nth(1).map(|s| s.split(':').next().unwrap_or("").rsplit("versatiles").next().unwrap_or("").to_string()).unwrap_or_default();
+		let mut w = witness();
+		w["command"] = json!(format!("versatiles probe {file}"));
+		w["exit_code"] = json!(code);
+		w["stderr_tail"] = json!(err.chars().rev().take(600).collect::<String>().chars().rev().collect::<String>());
+		rep.violation(&format!("cli|{entry}|{class}|{}", if code.is_none() { "killed-by-signal".to_string() } else { format!("panic{site}") }), "the command line tool was brought down by malformed input", w);
+	}
+}
+
 fn hexs(b: &[u8]) -> String {
 	b.iter().take(160).map(|x| format!("{x:02x}")).collect()
 }
@@ -294,8 +315,51 @@ fn run_factory(cx: &CaseCtx, rep: &mut Report, rng: &mut Rng, n: usize, csv_mode
 			(t, csv.into_bytes(), "vpl-argument-mutation")
 		};
 		let _ = std::fs::write(dir.join("data.csv"), &csv_bytes);
+		if !csv_mode && i % 4 == 1 {
+			// the pipeline text as a file on disk, opened the way the command line opens a *.vpl: the bytes need not be
+			// UTF-8 (a Latin-1 save, a flipped bit, a cut multi-byte character)
+			let seed = *rng.pick(&valid);
+			let bytes: Vec<u8> = match rng.below(4) {
+				0 => seed.replace("pbf", "p\u{e4}f").chars().map(|c| if (c as u32) < 256 { c as u32 as u8 } else { b'?' }).collect(),
+				1 => {
+					let mut b = format!("{seed} | filter_zoom min=0 # gr\u{fc}\u{df}e\n").into_bytes();
+					let at = b.len() - 4;
+					b.truncate(at);
+					b
+				}
+				_ => mutate(seed.as_bytes(), rng, false, &[]),
+			};
+			let file = dir.join("p.vpl");
+			let _ = std::fs::write(&file, &bytes);
+			let wit = || json!({"entry": "factory", "class": "vpl-file-bytes", "text": texts(&bytes), "hex": hexs(&bytes)});
+			let r = guarded(rep, cx, "factory", "vpl-file-bytes", bytes.len(), wit, || {
+				guard::block_on(async {
+					match versatiles_container::get_reader(file.to_str().unwrap()).await {
+						Err(_) => false,
+						Ok(reader) => {
+							let _ = reader.get_tile_data(&TileCoord3::new(0, 0, 0).unwrap()).await;
+							true
+						}
+					}
+				})
+			});
+			if r.is_some() {
+				rep.nontrivial(fnv(&bytes) ^ fnv(b"vplfile"));
+				rep.count("vpl_files_opened_from_disk", 1);
+			}
+		}
 		let entry = if csv_mode { "csvfile" } else { "factory" };
 		let wit = || json!({"entry": entry, "class": class, "vpl": vpl, "csv": texts(&csv_bytes), "csv_hex": hexs(&csv_bytes)});
+		if csv_mode && i % 10 == 0 {
+			// the data file behind a pipeline file, through the binary
+			let cont = dir.join("v0.versatiles");
+			if !cont.exists() {
+				let mut m = gen::MemSource::new(&vsets[0].tileset("v0"));
+				let _ = guard::block_on(versatiles_container::write_to_filename(&mut m, cont.to_str().unwrap()));
+			}
+			let _ = std::fs::write(dir.join("q.vpl"), "from_container filename=\"v0.versatiles\" | vectortiles_update_properties data_source_path=\"data.csv\" layer_name=roads id_field_tiles=osm_id id_field_data=id");
+			probe_with_binary(rep, &dir, "q.vpl", "csvfile", class, wit);
+		}
 		let r = guarded(rep, cx, entry, class, vpl.len() + csv_bytes.len(), wit, || {
 			guard::block_on(async {
 				match pipe::build(&vpl, &sources, Some(&dir)).await {
@@ -365,6 +429,18 @@ fn run_mvt(cx: &CaseCtx, rep: &mut Report, rng: &mut Rng, n: usize) {
 					}
 				}
 				let _ = t.to_blob();
+				// the property-rewriting entry points of a layer (what vectortiles_update_properties runs per tile):
+				// both return a Result
+				if let Ok(mut t2) = VectorTile::from_blob(&Blob::from(input.clone())) {
+					for l in t2.layers.iter_mut() {
+						let _ = l.map_properties(|p| p);
+					}
+				}
+				if let Ok(mut t3) = VectorTile::from_blob(&Blob::from(input.clone())) {
+					for l in t3.layers.iter_mut() {
+						let _ = l.filter_map_properties(Some);
+					}
+				}
 				true
 			}
 		});
@@ -528,7 +604,36 @@ fn tamper_versatiles_index(file: &[u8], rng: &mut Rng) -> Vec<u8> {
 	if raw.is_empty() {
 		return out;
 	}
-	match rng.below(5) {
+	match rng.below(7) {
+		5 | 6 => {
+			// one entry of a block's tile index carries an extreme offset / length: the index is re-compressed, stored
+			// at the end of the file and the block record is pointed at it
+			let rec = rng.usize_below(raw.len() / 33) * 33;
+			if rec + 33 <= raw.len() {
+				let u64_at = |b: &[u8], at: usize| u64::from_be_bytes(b[at..at + 8].try_into().unwrap());
+				let (off, blobs, ilen) = (u64_at(&raw, rec + 13), u64_at(&raw, rec + 21), u32::from_be_bytes(raw[rec + 29..rec + 33].try_into().unwrap()) as u64);
+				let (a, b) = (off.saturating_add(blobs) as usize, off.saturating_add(blobs).saturating_add(ilen) as usize);
+				if b <= file.len() && a < b {
+					if let Ok(mut idx) = crate::comp::unbrotli(&file[a..b]) {
+						if idx.len() >= 12 {
+							let e = rng.usize_below(idx.len() / 12) * 12;
+							if rng.chance(0.7) {
+								idx[e..e + 8].copy_from_slice(&rng.pick(&EXTREMES).to_be_bytes());
+							} else {
+								idx[e + 8..e + 12].copy_from_slice(&(*rng.pick(&[u32::MAX, 0x7fff_ffff, 0x8000_0000, 1 << 30])).to_be_bytes());
+							}
+							let c = crate::comp::brotli(&idx);
+							let pos = out.len() as u64;
+							if pos >= off {
+								out.extend_from_slice(&c);
+								raw[rec + 21..rec + 29].copy_from_slice(&(pos - off).to_be_bytes());
+								raw[rec + 29..rec + 33].copy_from_slice(&(c.len() as u32).to_be_bytes());
+							}
+						}
+					}
+				}
+			}
+		}
 		4 => {
 			// a block that announces a larger (still legal) extent than its tile index has entries for
 			let rec = rng.usize_below(raw.len() / 33) * 33;
@@ -681,7 +786,7 @@ fn run_tar(cx: &CaseCtx, rep: &mut Report, rng: &mut Rng, n: usize) {
 			1 => {
 				// member names that are not UTF-8 / not z/x/y, with a correct checksum
 				let mut b = seed.clone();
-				let name: &[u8] = *rng.pick(&["1/2/Köln".as_bytes(), "1/2/€1".as_bytes(), "1/2/€12".as_bytes(), "3/4/7.🗺z".as_bytes(), "ä/1/1.png".as_bytes(), "1/ö/1.png".as_bytes(), "1/2/名.png".as_bytes(), "1/2/x.pnä".as_bytes(), "tiles.jsön".as_bytes(), &b"\xff\xfe/1/2.png"[..], b"1/\xc3\x28/3.png", b"a/b/c.png", b"1/2/\xff.png", b"99999/1/1.png", b"1/99999999999/1.png", b"tiles.json.gz", b"./", b"1//2.png", b"1/2/3.png/"]);
+				let name: &[u8] = *rng.pick(&["1/2/Köln".as_bytes(), "1/2/€1".as_bytes(), "1/2/€12".as_bytes(), "3/4/7.🗺z".as_bytes(), "ä/1/1.png".as_bytes(), "1/ö/1.png".as_bytes(), "1/2/名.png".as_bytes(), "1/2/x.pnä".as_bytes(), "tiles.jsön".as_bytes(), &b"\xff\xfe/1/2.png"[..], b"1/\xc3\x28/3.png", b"a/b/c.png", b"1/2/\xff.png", b"99999/1/1.png", b"1/99999999999/1.png", b"3/4294967295/1.png", b"3/1/4294967295.png", b"31/4294967295/4294967295.png", b"0/5/5.png", b"2/4/0.png", b"30/1073741824/0.png", b"255/0/0.png", b"tiles.json.gz", b"./", b"1//2.png", b"1/2/3.png/"]);
 				if b.len() >= 512 {
 					for x in b[..100].iter_mut() {
 						*x = 0;
@@ -715,6 +820,9 @@ fn run_tar(cx: &CaseCtx, rep: &mut Report, rng: &mut Rng, n: usize) {
 		if r.is_some() && class.ends_with("mutation") {
 			rep.nontrivial(fnv(&input));
 		}
+		if i % 25 == 3 {
+			probe_with_binary(rep, &cx.scratch, "c19.tar", "tar", class, wit);
+		}
 	}
 	let _ = std::fs::remove_file(&path);
 }
@@ -729,7 +837,7 @@ fn run_directory(cx: &CaseCtx, rep: &mut Report, rng: &mut Rng, n: usize) {
 		let k = ts.tiles.keys().next().cloned().unwrap_or((0, 0, 0));
 		let zdir = root.join(k.0.to_string());
 		let xdir = zdir.join(k.1.to_string());
-		let what = rng.below(16);
+		let what = rng.below(18);
 		match what {
 			0 => {
 				let _ = std::fs::write(root.join(std::ffi::OsStr::from_bytes(b"\xff\xfe.txt")), b"x");
@@ -787,6 +895,13 @@ fn run_directory(cx: &CaseCtx, rep: &mut Report, rng: &mut Rng, n: usize) {
 			}
 			12 => {
 				let _ = std::fs::write(root.join("tiles.json"), b"\"\\u\xff\xff\xff\xff\"".to_vec());
+			}
+			15 | 16 => {
+				// numeric names that are not coordinates of their level (beyond 2^z - 1, up to the largest u32)
+				let (z, x, y) = *rng.pick(&[("3", "4294967295", "1"), ("3", "1", "4294967295"), ("31", "4294967295", "4294967295"), ("0", "5", "5"), ("2", "4", "0"), ("30", "1073741824", "0"), ("255", "0", "0")]);
+				let ext = xdir.read_dir().ok().and_then(|mut d| d.next()).and_then(|e| e.ok()).map(|e| e.file_name().to_string_lossy().split_once('.').map(|p| p.1.to_string()).unwrap_or_default()).unwrap_or("png".into());
+				let _ = std::fs::create_dir_all(root.join(z).join(x));
+				let _ = std::fs::write(root.join(z).join(x).join(format!("{y}.{ext}")), b"x");
 			}
 			_ => {
 				// remove everything: empty directory
